@@ -134,6 +134,7 @@ struct TorrentSpec {
   // on-disk deviations from what the torrent describes:
   bool write_files = true;              // false: download directory left empty
   std::vector<uint32_t> corrupt_pieces; // first byte of each listed piece is flipped on disk
+  std::vector<uint32_t> junk_pieces;    // every byte of each listed piece is replaced on disk (content byte xor a non-zero byte): differs from the content at every offset
   std::vector<uint32_t> missing_files;  // indices into files: not created on disk
   std::vector<std::pair<uint32_t, uint64_t>> truncated_files;  // (file index, on-disk length)
 };
